@@ -18,6 +18,7 @@ var tagRows = map[string]string{
 	"arguments": "every following segment name=v1 v2 yields the argument name with the space-separated items as values; bracketed groups are never split; a segment without '=' yields one empty value; an empty name is ignored",
 	"lookup":    "an argument is found (Find, Has) under its name with either case of the first letter, and only under those",
 	"required":  "the point is optional exactly when the tag carries required=false",
+	"has-values": "Has(name, wanted...) holds exactly when one of the wanted texts equals one of the argument's values, byte for byte",
 }
 
 // refSplitTop splits s at sep where the bracket depth is zero (reference for balanced texts only).
@@ -210,6 +211,49 @@ func tagTable(c *core.Ctx) (rs rows, runs int, undecided string) {
 				okH := oh.Panic == nil && len(oh.Ret) == 1 && oh.Ret[0] == absint.Value(absint.Bool(true))
 				if !okF || !okH {
 					rs.fail("lookup", fmt.Sprintf("%s: argument %q not found under %q (Find => %s, Has => %s)", w, k, nm, showOutcome(o), showOutcome(oh)))
+				}
+			}
+		}
+		rs.hit("has-values")
+		for k, vals := range wantArgs {
+			in := func(x string) bool {
+				for _, v := range vals {
+					if v == x {
+						return true
+					}
+				}
+				return false
+			}
+			swap := func(x string) string {
+				b := []byte(x)
+				for i := range b {
+					switch {
+					case b[i] >= 'a' && b[i] <= 'z':
+						b[i] -= 32
+					case b[i] >= 'A' && b[i] <= 'Z':
+						b[i] += 32
+					}
+				}
+				return string(b)
+			}
+			var probes [][]string
+			for _, v := range vals {
+				probes = append(probes, []string{v}, []string{swap(v)}, []string{v + "x"}, []string{"other", v}, []string{" " + v})
+			}
+			probes = append(probes, []string{"never"})
+			for _, pr2 := range probes {
+				want := false
+				l := &absint.List{}
+				for _, x := range pr2 {
+					want = want || in(x)
+					l.Elems = append(l.Elems, absint.Str(x))
+				}
+				o := run(has, argsV, absint.Str(k), l)
+				if o.Undecided != nil {
+					return rs, runs, w + ": Has with values: " + o.Undecided.Msg
+				}
+				if o.Panic != nil || len(o.Ret) != 1 || o.Ret[0] != absint.Value(absint.Bool(want)) {
+					rs.fail("has-values", fmt.Sprintf("%s: Has(%q, %q) => %s, want %v (values %q)", w, k, pr2, showOutcome(o), want, vals))
 				}
 			}
 		}
